@@ -9,12 +9,28 @@ import copy
 
 import numpy as np
 
-from ..core import Interp, Hooks, Violation
+from ..core import Interp, Hooks, Violation, decode
 from .. import fresh
 from .base import Scenario, solo_events, callers_of
 
 SEEDED = ('shot_noise', 'read_noise', 'dark_current', 'rule07_dark_current', 'power_spectrum')
 BIG = 9.223372006484771e+18
+
+
+def canonical_seed(seed):
+    """numpy's SeedSequence reads an int, or each int of a sequence, as little-endian 32-bit words, and trailing zero words do not
+    count: 7, [7], (7,), np.int64(7), [7, 0] are one seed, 7 + 2**32 and [7, 1] are one seed.  -> tuple of words."""
+    words = []
+    for x in np.atleast_1d(np.asarray(seed, dtype=object)).ravel().tolist():
+        x = int(x)
+        if x == 0:
+            words.append(0)
+        while x > 0:
+            words.append(x & 0xFFFFFFFF)
+            x >>= 32
+    while len(words) > 1 and words[-1] == 0:
+        words.pop()
+    return tuple(words)
 
 
 def _rng_state():
@@ -30,20 +46,40 @@ class StochHooks(Hooks):
         self.by_call = {}      # call signature without seed -> {seed: digest}
         self.first = {}
         self.held = {}         # result id -> digest: frames the callers still hold
+        self.inputs = {}       # id -> digest of every caller-owned input array (frames, masks, rate maps)
 
     def on_dirty(self, it, tid):
         if tid in self.held:
             self.held[tid] = it.dig(it.store[tid])      # the caller itself wrote into a frame it holds
+            # ... which is the caller's own, new array: writing into it cannot reach any argument it was computed from
+            for k, d0 in self.inputs.items():
+                if k in it.store and k != tid and it.dig(it.store[k]) != d0:
+                    it.violate('C18.repro', {'fn': it.meta.get(tid, {}).get('fn', '?'), 'what': 'result-aliases-argument'},
+                               'writing into the frame returned by %s changed the caller\'s input %s: the result is (a view of) its argument, '
+                               'so the same call no longer sees the same argument' % (it.meta.get(tid, {}).get('fn', '?'), k), None)
+                    self.inputs[k] = it.dig(it.store[k])
+        if tid in self.inputs:
+            self.inputs[tid] = it.dig(it.store[tid])    # the owner edited its own input (poke)
 
     def before(self, it, i, ev):
         self.pending_fresh = fresh.describe_call(it, ev) if (ev.get('t', {}).get('fresh') and ev['fn'] in SEEDED) else None
         self.rng0 = _rng_state()
         self.state0 = np.random.get_state()
+        self.rate0 = np.array(it.resolve(ev['a'][0]), dtype=float, copy=True) if ev['fn'] == 'dark_current' and ev.get('a') else None
 
     def after(self, it, i, ev, out):
         fn = ev['fn']
         tag = ev.get('t', {})
         k = ev.get('k', {})
+        # a model is a function OF its arguments: it does not rewrite them
+        for k_, v_ in it.store.items():
+            if isinstance(v_, np.ndarray) and k_ not in self.held:
+                d_ = it.dig(v_)
+                if k_ in self.inputs and self.inputs[k_] != d_ and fn in SEEDED + ('cosmic_rays',):
+                    it.probe('check:arguments')
+                    it.violate('C18.repro', {'fn': fn, 'what': 'argument-changed'},
+                               '%s changed the caller-owned array %s it was (or was not even) given' % (fn, k_), i)
+                self.inputs[k_] = d_
         # a frame a caller still holds is the draw it asked for, whatever is drawn afterwards (by anybody)
         for rid, d0 in self.held.items():
             if rid in it.store and it.dig(it.store[rid]) != d0:
@@ -73,12 +109,7 @@ class StochHooks(Hooks):
             sig = repr((fn, [it.dig(it.resolve(x)) for x in ev.get('a', [])], {kk: v for kk, v in k.items() if kk != 'seed'}))
             d = it.dig(out.value)
             seeds = self.by_call.setdefault(sig, {})
-            sv = k.get('seed')
-            if isinstance(sv, list):            # canonical form of a numpy seed: trailing zero words do not count
-                while len(sv) > 1 and sv[-1] == 0:
-                    sv = sv[:-1]
-                sv = sv[0] if len(sv) == 1 else sv
-            sd = repr(sv)
+            sd = repr(canonical_seed(decode(k.get('seed'))))
             if sd in seeds:
                 it.probe('check:repro')
                 it.fault('dup')
@@ -187,7 +218,7 @@ class StochHooks(Hooks):
         k = ev.get('k', {})
         r = np.asarray(out.value, dtype=float)
         it.probe('check:support')
-        shape = k.get('shape', 1)
+        shape = decode(k.get('shape', 1))
         if np.ndim(shape) and r.shape != tuple(shape):
             it.violate('C18.support', {'fn': fn, 'what': 'shape'}, 'shape %s requested %s' % (r.shape, shape), i)
             return
@@ -196,12 +227,14 @@ class StochHooks(Hooks):
         if not k.get('fpn_factor', 0):
             it.probe('dark_no_fpn')
             if fn == 'dark_current':
-                rate = float(ev['a'][0])
-                if rate >= 1e9 or abs(rate - round(rate)) < 1e-6:
+                rate = self.rate0 if self.rate0 is not None else np.asarray(it.resolve(ev['a'][0]), dtype=float)
+                if rate.ndim == 0 and (rate >= 1e9 or abs(rate - round(float(rate))) < 1e-6):
                     it.probe('dark_rate_at_an_edge')
+                if rate.ndim:
+                    it.probe('dark_rate_map')
                 if np.any(r != np.floor(rate)):
-                    it.violate('C18.support', {'fn': fn, 'what': 'floor-of-rate'}, 'dark frame without pattern noise is %s, floor(rate) = %g'
-                               % (np.unique(r)[:4], np.floor(rate)), i)
+                    it.violate('C18.support', {'fn': fn, 'what': 'floor-of-rate'}, 'dark frame without pattern noise is %s, floor(rate) = %s'
+                               % (np.unique(r)[:4], np.unique(np.floor(rate))[:4]), i)
             elif r.size and np.any(r != r.flat[0]):
                 it.violate('C18.support', {'fn': fn, 'what': 'floor-of-rate'}, 'rule07 dark frame without pattern noise is not constant', i)
 
@@ -273,7 +306,7 @@ class StochasticScenario(Scenario):
                    'seed=None (OS entropy) is never used: the simulator always passes seeds']
     must_hit = ['seeded_after_reseed', 'psd_nonsquare', 'psd_square', 'shot_bad_signal:gaussian', 'shot_bad_signal:poisson',
                 'moments:shot_poisson', 'moments:shot_gaussian', 'moments:read', 'dark_no_fpn', 'cosmic_hit', 'layout_twin',
-                'shot_tiny_negative', 'dark_rate_at_an_edge', 'pristine_process_comparison', 'shot_frame_edited_between_calls', 'seed_beyond_32_bits', 'one_argument_twin', 'shot_zero_signal_pixels', 'read_noise_megapixel_frame']
+                'shot_tiny_negative', 'dark_rate_at_an_edge', 'pristine_process_comparison', 'shot_frame_edited_between_calls', 'seed_beyond_32_bits', 'one_argument_twin', 'shot_zero_signal_pixels', 'read_noise_megapixel_frame', 'dark_rate_map']
     probe_names = must_hit + ['coldwarm_audit']
 
     # ---------------------------------------------------------------- generation
@@ -309,7 +342,9 @@ class StochasticScenario(Scenario):
         ev.append({'c': -1, 'fn': 'asfortran', 'id': 'IMG_F', 'a': ['@IMG']})
         ev.append({'c': -1, 'fn': 'transposed_view', 'id': 'IMG_T', 'a': ['@IMG']})
         ev.append({'c': -1, 'fn': 'asfortran', 'id': 'FLATG_F', 'a': ['@IMGG']})
+        ev.append({'c': -1, 'fn': 'array', 'id': 'RATE', 'recipe': {'kind': 'uniform', 'shape': 'F', 'lo': 3.3, 'hi': 90.7, 'seed': rng.randrange(10 ** 6)}})
         ev.append({'c': -1, 'fn': 'array', 'id': 'MQ', 'recipe': {'kind': 'disk', 'shape': 'Q', 'radius': world['shapes']['Q'][0] / 2.0 - 0.2}})
+        ev.append({'c': -1, 'fn': 'array', 'id': 'MQB', 'recipe': {'kind': 'disk', 'shape': [18, 18], 'radius': 8.7, 'dtype': rng.choice(['bool', 'uint8', 'int8', 'int16'])}})
         ev.append({'c': -1, 'fn': 'array', 'id': 'MR', 'recipe': {'kind': rng.choice(['disk', 'rect', 'ones']), 'shape': 'R', 'radius': 3.3,
                                                                   'half': [2, 4]}})
         return ev
@@ -339,7 +374,9 @@ class StochasticScenario(Scenario):
             else:
                 # (array seeds never end in 0: numpy's SeedSequence pads with zeros, so [7, 0] IS the seed 7)
                 s_ = rng.choice([0, rng.randrange(2 ** 31), rng.randrange(100), [rng.randrange(100), rng.randrange(1, 100)],
-                                 last_seed[0] + 2 ** 32, last_seed[0] + 2 ** 64, 2 ** 63 + rng.randrange(100)])
+                                 last_seed[0] + 2 ** 32, last_seed[0] + 2 ** 64, 2 ** 63 + rng.randrange(100),
+                                 {'$nd': [rng.randrange(100), rng.randrange(1, 100)], 'dtype': 'uint32'},         # an integer ndarray
+                                 {'$tuple': [rng.randrange(100), rng.randrange(1, 100)]}])
             if isinstance(s_, int):
                 last_seed[0] = s_
             return s_
@@ -364,7 +401,7 @@ class StochasticScenario(Scenario):
                 cnt[0] += 1
                 d['id'] = 'c%d_r%d' % (c, cnt[0])
                 d['k']['seed'] = d['k']['seed'] + rng.choice([2 ** 32, 2 ** 33, 2 ** 64, 3 * 2 ** 32])
-                d['t'] = {'distinct_expected': True, 'wide_seed': True}
+                d['t'] = {'distinct_expected': not (d['fn'] == 'read_noise' and not d['a'][1]), 'wide_seed': True}
                 out.append(d)
             r = rng.random()
             if r < 0.06:
@@ -395,17 +432,24 @@ class StochasticScenario(Scenario):
                     d.setdefault('t', {})['layout_twin'] = True
                     out.append(d)
             elif r < 0.45:
-                E('read_noise', ['@' + rng.choice(['IMG', 'FLAT', 'IMGI']), rng.choice([0.4, 1.0, 5.0, 12.5])], {'seed': seed()}, t={'distinct_expected': True})
+                sig_ = rng.choice([0.4, 1.0, 5.0, 12.5, 0, 0.0])
+                E('read_noise', ['@' + rng.choice(['IMG', 'FLAT', 'IMGI']), sig_], {'seed': seed()}, t={'distinct_expected': bool(sig_)})
             elif r < 0.6:
+                if rng.random() < 0.2:
+                    # a per-pixel rate map the caller keeps and passes again (same seed): the map is an argument, not a work buffer
+                    sd_ = seed()
+                    for _r in range(2):
+                        E('dark_current', ['@RATE'], {'shape': list(world['shapes']['F']), 'fpn_factor': rng.choice([0, 0.2]), 'seed': sd_}, t={'rate_map': True})
+                    continue
                 k_ = rng.choice([1, 7, 100, 65535])
                 edge = [k_ - 1e-9, float(np.nextafter(float(k_), 0.0)), 0.9999999, float(k_), k_ + 1e-9, 987233471889.0, 1e10 + 3.0, 2.0 ** 40 + 1, 0.0, 1e-12]
                 E('dark_current', [rng.choice([0.4, 5.7, 100.0, 1234.9]) if rng.random() < 0.5 else rng.choice(edge)],
-                  {'shape': rng.choice([[4, 5], [6, 6], [3, 8]]), 'fpn_factor': rng.choice([0, 0, 0.1, 0.3]), 'seed': seed()})
+                  {'shape': rng.choice([[4, 5], [6, 6], [3, 8], {'$tuple': [5, 4]}, 1, 7, [2, 3, 4]]), 'fpn_factor': rng.choice([0, 0, 0.1, 0.3]), 'seed': seed()})
             elif r < 0.7:
                 E('rule07_dark_current', [rng.choice([80.0, 120.0, 160.0]), rng.choice([2.5e-6, 5e-6, 10e-6]), rng.choice([10e-6, 18e-6])],
-                  {'shape': rng.choice([[4, 5], [6, 6]]), 'fpn_factor': rng.choice([0, 0.2]), 'seed': seed()})
+                  {'shape': rng.choice([[4, 5], [6, 6], {'$tuple': [3, 7]}, 1, [2, 3, 3]]), 'fpn_factor': rng.choice([0, 0.2]), 'seed': seed()})
             elif r < 0.85:
-                E('power_spectrum', ['@' + rng.choice(['MQ', 'MR', 'MR'])],
+                E('power_spectrum', ['@' + rng.choice(['MQ', 'MR', 'MR', 'MQB'])],
                   {'pixelscale': rng.choice([1e-3, 5e-3]), 'rms': rng.choice([1e-8, 5e-8, 2e-7]), 'half_power_freq': rng.choice([2.0, 8.0]),
                    'exp': rng.choice([2.0, 3.0]), 'seed': seed()}, t={'distinct_expected': True})
             else:
@@ -457,7 +501,7 @@ class StochasticScenario(Scenario):
                 src = rng.choice(done[c])
                 if rng.random() < 0.5:
                     # the caller modifies, in place, the frame it was handed (it owns it) before asking again
-                    out.append({'env': 'perturb', 'target': '@' + src['id'], 'seed': rng.randrange(10 ** 6), 'unshared': True})
+                    out.append({'env': 'perturb', 'c': c, 'target': '@' + src['id'], 'seed': rng.randrange(10 ** 6)})
                 d = copy.deepcopy(src)
                 d['id'] = d['id'] + 'd%d' % len(out)
                 d.setdefault('t', {})['dup'] = True
@@ -510,6 +554,13 @@ class StochasticScenario(Scenario):
             for method in ('gaussian', 'poisson'):
                 E('shot_noise', ['@IMGG'], {'method': method, 'seed': 31})
                 E('shot_noise', ['@ZER'], {'method': method, 'seed': 31})
+            for fpn_ in (0, 0.2):
+                for _r in range(2):
+                    E('dark_current', ['@RATE'], {'shape': list(world['shapes']['F']), 'fpn_factor': fpn_, 'seed': 4}, t={'rate_map': True})
+            E('read_noise', ['@IMG', 0], {'seed': 3})
+            events.append({'env': 'perturb', 'c': 0, 'target': '@p%d' % n[0], 'seed': 5})
+            E('read_noise', ['@IMG', 0], {'seed': 3}, t={'dup': True})
+            E('power_spectrum', ['@MQB'], {'pixelscale': 1e-3, 'rms': 5e-8, 'half_power_freq': 8.0, 'exp': 3.0, 'seed': 21})
             E('dark_current', [40.0], {'shape': [5, 7], 'fpn_factor': 0.1, 'seed': 2})
             E('dark_current', [40.0], {'shape': [5, 7], 'fpn_factor': 0.4, 'seed': 2}, t={'twin': True, 'fresh': True})
             if big:
